@@ -356,6 +356,16 @@ theorem quantifier_clauses_needed :
     roundTripModel goCodec (root3 (leafE NIL "'x,y'")) = false ∧
     roundTripModel goCodec (.node ⟨"1e5", []⟩ 0 [leafE NIL "a", leafE NIL "b"]) = false := needs_go
 
+/-- The ROOT name clause, explicitly (routed from C09): a root named "7.0" — with two children, or as a tip
+    root with a single child — is written `(a,b)7.0;` / `((a,b))7.0;`; the reader takes the label after the
+    last `)` for a support, the root has no branch, so the value is dropped and the name is lost.  Outside the
+    quantifier (`innerNameOK` applies to the root: not numeric-looking); a root named "7.0x" survives. -/
+theorem needs_nonnumeric_root_name_go :
+    roundTripModel goCodec (.node ⟨"7.0", []⟩ 0 [leafE NIL "a", leafE NIL "b"]) = false ∧
+    roundTripModel goCodec (.node ⟨"7.0", []⟩ 0 [innerAB ⟨NIL, NIL, NIL, [], 0⟩ ⟨"", []⟩]) = false ∧
+    WF01 goCodec.isFloat isF64 (.node ⟨"7.0", []⟩ 0 [leafE NIL "a", leafE NIL "b"]) = false ∧
+    roundTripModel goCodec (.node ⟨"7.0x", []⟩ 0 [leafE NIL "a", leafE NIL "b"]) = true := by decide +kernel
+
 /-! ### the hypotheses of the theorems for the executable codec are satisfiable -/
 
 /-- `exTreeGo` carries 0.1, 0.30000000000000004, a sub-normal (1e-320), the largest float64, 1e21, -1.25 -/
